@@ -783,6 +783,12 @@ func (rc *resolveCtx) walk(v ssa.Value, out *[]ssa.Value, depth int) {
 				return
 			}
 			for _, fn := range fns {
+				if fn.Blocks == nil {
+					*out = append(*out, v)
+					return
+				}
+			}
+			for _, fn := range fns {
 				for _, r := range returnsOf(fn) {
 					if x.Index < len(r.Results) {
 						rc.walk(r.Results[x.Index], out, depth+1)
